@@ -37,7 +37,8 @@ use hickory_proto::op::{DnsRequest, DnsRequestOptions, DnsResponse, Message, Mes
 use hickory_proto::rr::rdata::{A, AAAA, CNAME, NS, SOA, SRV, TXT};
 use hickory_proto::rr::{Name, RData, Record, RecordType};
 use hickory_resolver::caching_client::CachingClient;
-use hickory_resolver::config::LookupIpStrategy;
+use hickory_resolver::config::{ConnectionConfig, LookupIpStrategy, NameServerConfig, ResolveHosts, ResolverConfig};
+use hickory_resolver::{ConnectionProvider, PoolContext, Resolver};
 use hickory_resolver::lookup_ip::LookupIpFuture;
 use hickory_resolver::Hosts;
 use serde_json::{json, Value};
@@ -69,6 +70,9 @@ struct Upstream {
     calls: Arc<Mutex<Vec<u32>>>,
     /// knob: what the handle answers to `is_verifying_dnssec()` (CachingClient drops the negative TTL then)
     verifying: bool,
+    /// answer like the single authoritative server of a tiny internet (root and zone `z.` on one address):
+    /// AA set, NS queries for `.` / `z.` answered with `ns.z.` + glue
+    authority: Option<std::net::Ipv4Addr>,
 }
 
 impl DnsHandle for Upstream {
@@ -89,8 +93,25 @@ impl DnsHandle for Upstream {
                 self.calls.lock().unwrap()[i] += 1;
                 self.table[i].1.clone()
             }
-            None => Reply::Msg(vec![], vec![], vec![], ResponseCode::Refused),
+            None => match self.authority {
+                None => Reply::Msg(vec![], vec![], vec![], ResponseCode::Refused),
+                Some(ip) => {
+                    m.metadata.authoritative = true;
+                    let qn = m.queries[0].name.clone();
+                    let glue = Record::from_rdata(n("ns.z."), 3600, RData::A(A(ip)));
+                    if m.queries[0].query_type == RecordType::NS && (qn.is_root() || qn == n("z.")) {
+                        Reply::Msg(vec![Record::from_rdata(qn, 3600, RData::NS(NS(n("ns.z."))))], vec![], vec![glue], ResponseCode::NoError)
+                    } else if m.queries[0].query_type == RecordType::A && qn == n("ns.z.") {
+                        Reply::Msg(vec![glue], vec![], vec![], ResponseCode::NoError)
+                    } else {
+                        Reply::Msg(vec![], vec![Record::from_rdata(n("z."), 3600, RData::SOA(SOA::new(n("ns.z."), n("h.z."), 1, 7200, 3600, 86400, 3600)))], vec![], ResponseCode::NoError)
+                    }
+                }
+            },
         };
+        if self.authority.is_some() {
+            m.metadata.authoritative = true;
+        }
         let res = match reply {
             Reply::Msg(an, au, ad, rcode) => {
                 m.metadata.response_code = rcode;
@@ -545,7 +566,7 @@ pub fn run(thorough: bool, only: Option<&str>, l: &mut Local) -> SeamStats {
         .iter()
         .map(|w| {
             let calls = Arc::new(Mutex::new(vec![0u32; w.table.len()]));
-            let up = Upstream { table: Arc::new(w.table.clone()), calls: calls.clone(), verifying: w.verifying };
+            let up = Upstream { table: Arc::new(w.table.clone()), calls: calls.clone(), verifying: w.verifying, authority: None };
             Live { client: CachingClient::new(64, up, w.preserve), calls, last_fetch_end: vec![None; w.table.len()], last_fetch_alone: vec![false; w.table.len()], t0: None, log: vec![] }
         })
         .collect();
@@ -554,7 +575,7 @@ pub fn run(thorough: bool, only: Option<&str>, l: &mut Local) -> SeamStats {
         .iter()
         .map(|w| {
             let calls = Arc::new(Mutex::new(vec![0u32; 2]));
-            let up = Upstream { table: Arc::new(w.table.clone()), calls: calls.clone(), verifying: false };
+            let up = Upstream { table: Arc::new(w.table.clone()), calls: calls.clone(), verifying: false, authority: None };
             Live { client: CachingClient::new(64, up, true), calls, last_fetch_end: vec![None; 2], last_fetch_alone: vec![false; 2], t0: None, log: vec![] }
         })
         .collect();
@@ -786,4 +807,258 @@ pub fn run(thorough: bool, only: Option<&str>, l: &mut Local) -> SeamStats {
         }
     }
     SeamStats { worlds: worlds.len() + ipw.len(), lookups }
+}
+
+
+// ------------------------------------------------------------------------------------------
+// construction-path family: the production path that builds the cache inside a `Resolver`
+// (`ResolverBuilder::build`: `ResponseCache::new(opts.cache_size, TtlConfig::from_opts(&opts))` +
+// `CachingClient::with_cache(cache, pool, opts.preserve_intermediates)`) over a scripted
+// `ConnectionProvider`, every knob at a non-default value and the four bounds at four DIFFERENT values.
+// One probe per bound that only that bound explains; the expectation is the reference's for these values.
+
+#[derive(Clone)]
+struct Prov {
+    up: Upstream,
+    rt: TokioRuntimeProvider,
+}
+
+impl ConnectionProvider for Prov {
+    type Conn = Upstream;
+    type FutureConn = Pin<Box<dyn std::future::Future<Output = Result<Upstream, NetError>> + Send>>;
+    type RuntimeProvider = TokioRuntimeProvider;
+
+    fn new_connection(&self, _ip: std::net::IpAddr, _config: &ConnectionConfig, _cx: &PoolContext) -> Result<Self::FutureConn, NetError> {
+        let up = self.up.clone();
+        Ok(Box::pin(async move { Ok(up) }))
+    }
+    fn runtime_provider(&self) -> &TokioRuntimeProvider {
+        &self.rt
+    }
+}
+
+pub const CTOR_POS_MIN: u64 = 7;
+pub const CTOR_POS_MAX: u64 = 11;
+pub const CTOR_NEG_MIN: u64 = 1;
+pub const CTOR_NEG_MAX: u64 = 2;
+
+pub fn run_ctor(l: &mut Local) -> u64 {
+    let rt = tokio::runtime::Builder::new_current_thread().enable_time().build().unwrap();
+    let qa = |name: &str| Query::new(n(name), RecordType::A);
+    let nxd = |s: u32| Reply::Msg(vec![], vec![soa_rec(s, s)], vec![], ResponseCode::NXDomain);
+    let pos = |an: Vec<Record>| Reply::Msg(an, vec![], vec![], ResponseCode::NoError);
+    // probe: (query, reply, what it isolates)
+    let table: Vec<(Query, Reply)> = vec![
+        (qa("p1.z."), pos(vec![a_rec("p1.z.", 1, 1)])),                                       // TTL below positive_min
+        (qa("p2.z."), pos(vec![a_rec("p2.z.", 1000, 1)])),                                    // TTL above positive_max
+        (qa("n1.z."), nxd(0)),                                                                // negative TTL below negative_min
+        (qa("n2.z."), nxd(1000)),                                                             // negative TTL above negative_max
+        (qa("c.z."), pos(vec![cname_rec("c.z.", "t.z.", 50), a_rec("t.z.", 50, 1)])),       // preserve_intermediates = false
+    ];
+    let calls = Arc::new(Mutex::new(vec![0u32; table.len()]));
+    let up = Upstream { table: Arc::new(table.clone()), calls: calls.clone(), verifying: false, authority: None };
+    let resolver = {
+        let _g = rt.enter();
+        let prov = Prov { up, rt: TokioRuntimeProvider::new() };
+        let config = ResolverConfig::from_parts(None, vec![], vec![NameServerConfig::udp("192.0.2.53".parse().unwrap())]);
+        let mut b = Resolver::builder_with_config(config, prov);
+        let o = b.options_mut();
+        o.positive_min_ttl = Some(Duration::from_secs(CTOR_POS_MIN));
+        o.positive_max_ttl = Some(Duration::from_secs(CTOR_POS_MAX));
+        o.negative_min_ttl = Some(Duration::from_secs(CTOR_NEG_MIN));
+        o.negative_max_ttl = Some(Duration::from_secs(CTOR_NEG_MAX));
+        o.cache_size = 5;
+        o.preserve_intermediates = false;
+        o.use_hosts_file = ResolveHosts::Never;
+        o.attempts = 1;
+        b.build().expect("HARNESS: resolver over the scripted provider")
+    };
+    // expected lifetime per probe (seconds) and, for positive ones, the clamped TTL
+    let clamp = |v: u64, lo: u64, hi: u64| v.max(lo).min(hi);
+    let expect: Vec<(bool, u64)> = vec![
+        (true, clamp(1, CTOR_POS_MIN, CTOR_POS_MAX)),
+        (true, clamp(1000, CTOR_POS_MIN, CTOR_POS_MAX)),
+        (false, clamp(0, CTOR_NEG_MIN, CTOR_NEG_MAX)),
+        (false, clamp(1000, CTOR_NEG_MIN, CTOR_NEG_MAX)),
+        (true, clamp(50, CTOR_POS_MIN, CTOR_POS_MAX)),
+    ];
+    let mut last_fetch: Vec<Option<(Instant, Instant)>> = vec![None; table.len()];
+    let mut log: Vec<Value> = vec![];
+    let mut lookups = 0u64;
+    let start = Instant::now();
+    for (round, off) in [0u64, 0, 1150, 2150, 3150].iter().enumerate() {
+        let due = start + Duration::from_millis(*off);
+        let now = Instant::now();
+        if due > now {
+            std::thread::sleep(due - now);
+        }
+        for (i, (q, _)) in table.iter().enumerate() {
+            let before = calls.lock().unwrap()[i];
+            let t_start = Instant::now();
+            let res = rt.block_on(resolver.lookup(q.name.clone(), RecordType::A));
+            let t_end = Instant::now();
+            let fetched = calls.lock().unwrap()[i] > before;
+            lookups += 1;
+            l.eval();
+            let summary = match &res {
+                Ok(lk) => json!({"ok": lk.answers().iter().map(|r| format!("{} {} ttl={}", r.name, r.record_type(), r.ttl)).collect::<Vec<_>>()}),
+                Err(NetError::Dns(DnsError::NoRecordsFound(nr))) => json!({"no_records": {"negative_ttl": nr.negative_ttl}}),
+                Err(e) => json!({"error": e.to_string()}),
+            };
+            log.push(json!({"round": round, "query": q.name.to_string(), "fetched_upstream": fetched, "result": summary}));
+            let viol = |l: &mut Local, key: &str, what: String, log: &Vec<Value>| {
+                l.violation(key, &what, || {
+                    json!({"ctor": "resolver", "options": {"positive_min_ttl": CTOR_POS_MIN, "positive_max_ttl": CTOR_POS_MAX, "negative_min_ttl": CTOR_NEG_MIN, "negative_max_ttl": CTOR_NEG_MAX, "cache_size": 5, "preserve_intermediates": false}, "lookups": log})
+                });
+            };
+            // bounds on the age of the entry that answered
+            let (age_low, age_high) = if fetched {
+                (0u64, 0u64)
+            } else {
+                match last_fetch[i] {
+                    Some((fs, fe)) => (t_start.saturating_duration_since(fe).as_millis() as u64, t_end.saturating_duration_since(fs).as_millis() as u64),
+                    None => (0, 0),
+                }
+            };
+            let (positive, want) = expect[i];
+            if positive {
+                if let Ok(lk) = &res {
+                    // every answer record carries the clamped TTL minus whole seconds of the age
+                    let hi = want.saturating_sub(age_low / 1000);
+                    let lo = want.saturating_sub(age_high / 1000);
+                    for r in lk.answers() {
+                        if (r.ttl as u64) > hi || (r.ttl as u64) < lo {
+                            viol(l, "ctor:resolver:ttl-differs-from-the-configured-positive-bounds", format!("{} reported ttl {}, expected {lo}..={hi} (bounds {CTOR_POS_MIN}..{CTOR_POS_MAX}, age {age_low}..{age_high} ms)", q.name, r.ttl), &log);
+                        }
+                    }
+                    if i == 4 && lk.answers().iter().any(|r| r.record_type() == RecordType::CNAME) {
+                        viol(l, "ctor:resolver:preserve_intermediates-not-applied", "preserve_intermediates = false, yet the answer carries the CNAME".into(), &log);
+                    }
+                    l.outcome("ctor:resolver:positive-probe");
+                } else {
+                    viol(l, "ctor:resolver:positive-probe-failed", format!("{} did not resolve", q.name), &log);
+                }
+            } else {
+                // negative: kept exactly as long as the configured bounds say
+                if !fetched && age_low > want * 1000 {
+                    viol(l, "ctor:resolver:negative-kept-beyond-the-configured-bounds", format!("{} answered from the cache {age_low} ms after the fetch, configured lifetime {want} s", q.name), &log);
+                } else if fetched && round > 0 {
+                    if let Some((fs, _)) = last_fetch[i] {
+                        let since = t_end.saturating_duration_since(fs).as_millis() as u64;
+                        if since < want * 1000 {
+                            viol(l, "ctor:resolver:negative-not-kept-for-the-configured-bounds", format!("{} fetched again {since} ms after the previous fetch, configured lifetime {want} s", q.name), &log);
+                        }
+                    }
+                }
+                l.outcome("ctor:resolver:negative-probe");
+            }
+            if fetched {
+                last_fetch[i] = Some((t_start, t_end));
+            }
+        }
+    }
+    lookups
+}
+
+
+// the recursor's construction path: `Recursor::with_options(roots, RecursorOptions { cache_policy,
+// response_cache_size, .. }, provider)` over a one-server internet; `resolve(query, now, ..)` takes an explicit
+// `now`, so the probes run on virtual time.
+pub fn run_ctor_recursor(l: &mut Local) -> u64 {
+    use hickory_resolver::recursor::{Recursor, RecursorOptions};
+    use hickory_resolver::TtlConfig;
+    let rt = tokio::runtime::Builder::new_current_thread().enable_time().build().unwrap();
+    let ip: std::net::Ipv4Addr = "198.41.0.4".parse().unwrap();
+    let qa = |name: &str| Query::new(n(name), RecordType::A);
+    let nxd = |s: u32| Reply::Msg(vec![], vec![soa_rec(s, s)], vec![], ResponseCode::NXDomain);
+    let pos = |an: Vec<Record>| Reply::Msg(an, vec![], vec![], ResponseCode::NoError);
+    let table: Vec<(Query, Reply)> = vec![
+        (qa("p1.z."), pos(vec![a_rec("p1.z.", 1, 1)])),
+        (qa("p2.z."), pos(vec![a_rec("p2.z.", 1000, 1)])),
+        (qa("n1.z."), nxd(0)),
+        (qa("n2.z."), nxd(1000)),
+    ];
+    let calls = Arc::new(Mutex::new(vec![0u32; table.len()]));
+    let up = Upstream { table: Arc::new(table.clone()), calls: calls.clone(), verifying: false, authority: Some(ip) };
+    let policy: TtlConfig = serde_json::from_value(json!({"default": {"positive_min_ttl": CTOR_POS_MIN, "positive_max_ttl": CTOR_POS_MAX, "negative_min_ttl": CTOR_NEG_MIN, "negative_max_ttl": CTOR_NEG_MAX}})).unwrap();
+    let rec = {
+        let _g = rt.enter();
+        let prov = Prov { up, rt: TokioRuntimeProvider::new() };
+        let opts = RecursorOptions { cache_policy: policy, response_cache_size: 64, ns_cache_size: 3, deny_server: vec![], ..RecursorOptions::default() };
+        Recursor::with_options(&[std::net::IpAddr::V4(ip)], opts, prov).expect("HARNESS: recursor over the scripted provider")
+    };
+    let clamp = |v: u64, lo: u64, hi: u64| v.max(lo).min(hi);
+    let expect: Vec<(bool, u64)> = vec![
+        (true, clamp(1, CTOR_POS_MIN, CTOR_POS_MAX)),
+        (true, clamp(1000, CTOR_POS_MIN, CTOR_POS_MAX)),
+        (false, clamp(0, CTOR_NEG_MIN, CTOR_NEG_MAX)),
+        (false, clamp(1000, CTOR_NEG_MIN, CTOR_NEG_MAX)),
+    ];
+    let base = Instant::now();
+    let mut log: Vec<Value> = vec![];
+    let mut lookups = 0u64;
+    let mut fetched_at: Vec<Option<u64>> = vec![None; table.len()];
+    // virtual offsets: around every configured lifetime
+    for off_ms in [0u64, 400, 1000, 1400, 2000, 2400, 6600, 7400, 10600, 11400, 23000] {
+        for (i, (q, _)) in table.iter().enumerate() {
+            let before = calls.lock().unwrap()[i];
+            let res = rt.block_on(rec.resolve(q.clone(), base + Duration::from_millis(off_ms), false));
+            let fetched = calls.lock().unwrap()[i] > before;
+            lookups += 1;
+            l.eval();
+            let summary = match &res {
+                Ok(m) => json!({"rcode": m.metadata.response_code.to_string(), "answers": m.answers.iter().map(|r| format!("{} {} ttl={}", r.name, r.record_type(), r.ttl)).collect::<Vec<_>>()}),
+                Err(e) => json!({"error": e.to_string()}),
+            };
+            log.push(json!({"at_ms": off_ms, "query": q.name.to_string(), "fetched_upstream": fetched, "result": summary}));
+            let viol = |l: &mut Local, key: &str, what: String, log: &Vec<Value>| {
+                l.violation(key, &what, || {
+                    json!({"ctor": "recursor", "cache_policy": {"positive_min_ttl": CTOR_POS_MIN, "positive_max_ttl": CTOR_POS_MAX, "negative_min_ttl": CTOR_NEG_MIN, "negative_max_ttl": CTOR_NEG_MAX}, "response_cache_size": 64, "lookups": log})
+                });
+            };
+            if fetched {
+                fetched_at[i] = Some(off_ms);
+            }
+            let Some(f) = fetched_at[i] else {
+                viol(l, "ctor:recursor:answer-without-upstream-query", format!("{} answered without any upstream query", q.name), &log);
+                continue;
+            };
+            let age = off_ms - f;
+            let (positive, want) = expect[i];
+            // exact differential against the bounds: cached exactly while age <= lifetime
+            if !fetched && age > want * 1000 {
+                viol(l, "ctor:recursor:kept-beyond-the-configured-bounds", format!("{} answered from the cache {age} ms after the fetch, configured lifetime {want} s", q.name), &log);
+            }
+            if fetched && off_ms > 0 {
+                // it was fetched again: the previous entry must have been past its configured lifetime
+                let prev = log.iter().rev().skip(1).find(|e| e["query"] == json!(q.name.to_string()) && e["fetched_upstream"] == json!(true)).and_then(|e| e["at_ms"].as_u64());
+                if let Some(p) = prev {
+                    if off_ms - p <= want * 1000 {
+                        viol(l, "ctor:recursor:not-kept-for-the-configured-bounds", format!("{} fetched again {} ms after the previous fetch, configured lifetime {want} s", q.name, off_ms - p), &log);
+                    }
+                }
+            }
+            if positive {
+                match &res {
+                    Ok(m) if !m.answers.is_empty() => {
+                        let w = want.saturating_sub(age / 1000);
+                        if fetched {
+                            // the recursor hands the fresh upstream message on as it is (only the cached copy is
+                            // clamped): not an answer of the cache, logged only
+                            if m.answers.iter().any(|r| r.ttl as u64 != w) {
+                                l.outcome("obs:recursor:fresh-answer-carries-the-unclamped-upstream-ttl");
+                            }
+                        } else if m.answers.iter().any(|r| r.ttl as u64 != w) {
+                            viol(l, "ctor:recursor:ttl-differs-from-the-configured-positive-bounds", format!("{} reported {:?}, expected {w}", q.name, m.answers.iter().map(|r| r.ttl).collect::<Vec<_>>()), &log);
+                        }
+                        l.outcome("ctor:recursor:positive-probe");
+                    }
+                    _ => viol(l, "ctor:recursor:positive-probe-failed", format!("{} did not resolve", q.name), &log),
+                }
+            } else {
+                l.outcome("ctor:recursor:negative-probe");
+            }
+        }
+    }
+    lookups
 }
